@@ -66,6 +66,9 @@ func ghostAssert(b bool) {}
 // for 0 <= a <= t the product a*h lies between 0 and t*h
 func lemmaMulBetween(a, t, h IntType) {}
 
+// (a+1)*h == a*h + h
+func lemmaMulSucc(a, h IntType) {}
+
 // ---- pure spec functions ----
 
 // specPick: how many of the sorted dice are summed (kl/kh keep N, dl/dh drop N, clamped to [0,times]).
@@ -192,6 +195,11 @@ func lemmaMulBetween
   ensures t*h >= 0 ==> 0 <= a*h && a*h <= t*h
   ensures t*h <= 0 ==> t*h <= a*h && a*h <= 0
 
+func lemmaMulSucc
+  props C04 C15
+  pure
+  ensures (a+1)*h == a*h + h
+
 func RollCommon
   props C04 C15
   requires times >= 1 && dicePoints >= 1
@@ -216,7 +224,7 @@ func RollCommon
     invariant num == psum(nums, int(i))
     invariant i * glo <= num && num <= i * ghi
     decreases int(pickNum - i)
-  ghost at loop 2 begin: lemmaMulBetween(i+1, times, ghi); lemmaMulBetween(i+1, times, glo)
+  ghost at loop 2 begin: lemmaMulBetween(i+1, times, ghi); lemmaMulBetween(i+1, times, glo); lemmaMulSucc(i, ghi); lemmaMulSucc(i, glo)
   loop 3
     invariant 0 <= i && i <= len(nums)
     invariant i > 0 ==> len(text) >= 2
